@@ -167,6 +167,39 @@ func c01Histories(out *vu.Out, rng *vu.Rng, n int, focusGrants bool) {
 			}
 			return m
 		}
+		// Services whose update is easy to overlook for a port filter: two ports that share number and targetPort and
+		// differ in protocol, one of which changes; a port that is only renamed (EndpointSlice ports are matched by name)
+		if r.Chance(1, 3) {
+			ns := a.Gateways[0].NS
+			variant := r.Intn(2)
+			mk := func(after bool) []client.Object {
+				svc := &apiv1.Service{ObjectMeta: metav1.ObjectMeta{Namespace: ns, Name: "svc-odd"}, Spec: apiv1.ServiceSpec{IPFamilies: []apiv1.IPFamily{apiv1.IPv4Protocol}}}
+				slicePort := "web"
+				if variant == 0 {
+					svc.Spec.Ports = []apiv1.ServicePort{{Name: "dns-udp", Port: 53, Protocol: apiv1.ProtocolUDP}, {Name: "dns-tcp", Port: 53, Protocol: apiv1.ProtocolTCP}}
+					if after {
+						svc.Spec.Ports[1] = apiv1.ServicePort{Name: "web", Port: 8080, Protocol: apiv1.ProtocolTCP}
+					}
+				} else {
+					svc.Spec.Ports = []apiv1.ServicePort{{Name: "old", Port: 8080, Protocol: apiv1.ProtocolTCP}}
+					if after {
+						svc.Spec.Ports[0].Name = "web"
+					}
+				}
+				tcp := apiv1.ProtocolTCP
+				sl := &discoveryV1.EndpointSlice{ObjectMeta: metav1.ObjectMeta{Namespace: ns, Name: "svc-odd-x1", Generation: 1, Labels: map[string]string{"kubernetes.io/service-name": "svc-odd"}},
+					AddressType: discoveryV1.AddressTypeIPv4, Ports: []discoveryV1.EndpointPort{{Name: &slicePort, Port: helpers.GetPointer[int32](9090), Protocol: &tcp}},
+					Endpoints: []discoveryV1.Endpoint{{Addresses: []string{"10.2.2.2"}}}}
+				rt := vsRoute{NS: ns, Name: "r-odd", TS: 1, Parents: []vsParentRef{{Name: "gw"}}, Rules: []vsRule{{Matches: []vsMatch{{Path: "/odd"}},
+					Backends: []vsBackend{{Name: "svc-odd", Port: 8080, Weight: 1}}}}}
+				return []client.Object{svc, sl, rt.obj()}
+			}
+			objsA = append(objsA, mk(false)...)
+			objsB = append(objsB, mk(true)...)
+			if variant == 1 {
+				flags = append(flags, "service-port-rename")
+			}
+		}
 		ma, mb := byKey(objsA), byKey(objsB)
 		// ---- the history: ops on the cluster
 		type op struct {
